@@ -36,7 +36,17 @@ def make_source():
     for old, new in SOURCE_NULL_DEFAULTS:
         assert old in sdl, old
         sdl = sdl.replace(old, new, 1)
-    s = build_schema(sdl + SOURCE_EXTRA_SDL)
+    from py_gql.schema import ScalarType
+
+    class Cents(ScalarType):
+        """a scalar whose behaviour lives in overridden methods (the documented subclassing style)"""
+
+        def serialize(self, value):
+            return "%.2f" % (float(value) / 100)
+
+        def parse(self, value):
+            return int(round(float(value) * 100))
+    s = build_schema(sdl + SOURCE_EXTRA_SDL, additional_types=[Cents("Date", serialize=str, parse=str)])
 
     def r_me(root, ctx, info):
         return {"id": "1", "name": "n"}
@@ -98,6 +108,25 @@ VISIBILITIES = [
 ]
 
 
+def wrap_resolvers():
+    """a visitor-based transform that REPLACES the resolver of every field that has one (also those registered on the schema)"""
+    from py_gql.schema import Field, SchemaVisitor
+
+    class Wrap(SchemaVisitor):
+        def on_field(self, field):
+            field = super().on_field(field)
+            if field is None or field.resolver is None:
+                return field
+            inner = field.resolver
+
+            def wrapped(root, ctx, info, **kw):
+                return inner(root, ctx, info, **kw)
+            return Field(field.name, field.type, args=field.arguments, resolver=wrapped, description=field.description,
+                         deprecation_reason=field.deprecation_reason, node=field.node, python_name=field.python_name,
+                         subscription_resolver=field.subscription_resolver)
+    return Wrap()
+
+
 def operations():
     """(label, function(schema) -> schema, targets) - targets: names the operation is allowed to change"""
     from py_gql.schema.transforms import CamelCaseSchemaTransform, transform_schema
@@ -106,6 +135,7 @@ def operations():
     for label, kw in VISIBILITIES:
         ops.append((label, (lambda kw_: (lambda s: transform_schema(s, visibility(**kw_))))(kw), kw))
     ops.append(("camel-case", lambda s: transform_schema(s, CamelCaseSchemaTransform()), {"camel": True}))
+    ops.append(("wrap-resolvers", lambda s: transform_schema(s, wrap_resolvers()), {"wrap": True}))
     for i, ext in enumerate(EXTENSIONS):
         ops.append(("extend-%d" % i, (lambda e: (lambda s: extend_schema(s, e)))(ext), {"extension": ext}))
     return ops
@@ -185,6 +215,8 @@ def preserved(before, after, kw):
                 bad.append("%s disappeared" % key)
             continue
         a = after["extra"][key]
+        if a != val and kw.get("wrap") and isinstance(val, tuple) and val[0] is not None and a[1:] == val[1:] and a[0] is not None:
+            continue          # the transform's purpose: the field's resolver is replaced by its wrapper; everything else about the field stays
         if a != val:
             if camel and isinstance(val, tuple):
                 # names change; resolvers, subscription resolvers and python names must not
@@ -326,7 +358,8 @@ def check(tier, seed):
     # chains: the result of one operation is the source of the next
     labels = [l for l, _f, _k in ops]
     forced = [(labels.index("hide-Subscription"), labels.index("clone")), (labels.index("hide-field-Query.me"), labels.index("hide-type-Cat")),
-              (labels.index("hide-Mutation"), labels.index("extend-0")), (labels.index("extend-0"), labels.index("clone"))]
+              (labels.index("hide-Mutation"), labels.index("extend-0")), (labels.index("extend-0"), labels.index("clone")), (labels.index("wrap-resolvers"), labels.index("clone")),
+              (labels.index("wrap-resolvers"), labels.index("hide-type-Cat")), (labels.index("wrap-resolvers"), labels.index("wrap-resolvers"))]
     for seq in forced + seqs[: (60 if tier == "thorough" else 15)]:
         cur = make_source()
         hist = []
